@@ -317,6 +317,11 @@ class AsyncServer(Entity):
                 if hasattr(io_result, "__next__"):
                     # Return generator for I/O processing
                     def io_wrapper():
+                        # The CPU is free while this request waits for I/O: start the
+                        # next queued request now rather than after the I/O phase.
+                        if result_events:
+                            yield 0.0, list(result_events)
+
                         io_start = self.now.to_seconds()
                         result = yield from io_result
                         io_time = self.now.to_seconds() - io_start
@@ -326,13 +331,13 @@ class AsyncServer(Entity):
                         # Complete the request
                         self._complete_request(original_event)
 
-                        # Return any events from I/O handler plus queue processing
+                        # Return any events from the I/O handler
                         if result is None:
-                            return result_events if result_events else None
+                            return None
                         elif isinstance(result, list):
-                            return result + result_events
+                            return result
                         else:
-                            return [result, *result_events]
+                            return [result]
 
                     return io_wrapper()
 
